@@ -302,7 +302,8 @@ class SoftTTLCache(Entity):
             # Check if the refresh completed
             if key in self._cache:
                 return self._cache[key].value
-            return None
+            # The refreshed entry is gone again (invalidated or evicted while we
+            # waited), or the refresh found nothing: fetch it ourselves below.
 
         # Fetch from backing store (blocking)
         value = yield from self._backing_store.get(key)
